@@ -26,6 +26,10 @@ STRICT_ERRORS = {
                   'used as a periodic distance: in a skewed cell the componentwise-nearest image is not the nearest image',
 }
 KIND_ERRORS.update({
+    'wrong_metric': 'the metric tensor is built as M^T M from the row-vector lattice matrix (it is M M^T): lengths are wrong in every '
+                    'cell whose matrix is not symmetric (triclinic, rotated)',
+    'latmat_colnorm': 'column norms of the row-vector lattice matrix are used as cell lengths (they are the row norms): wrong for every '
+                      'non-orthogonal or rotated cell',
     'cartsq_mean_xyz': 'squared components are averaged (not summed) over xyz',
 })
 ALL_ERRORS = {**KIND_ERRORS, **STRICT_ERRORS}
